@@ -3,6 +3,7 @@
 use crate::report::{Config, Tier};
 
 pub mod c01;
+pub mod c02;
 pub mod c04;
 pub mod c06;
 pub mod c07;
@@ -15,6 +16,8 @@ pub mod c15;
 pub fn configs(prop: &str, tier: Tier) -> Option<Vec<Box<dyn Config>>> {
     Some(match prop {
         "C01" => c01::configs(tier),
+        "C02" => c02::configs_c02(tier),
+        "C03" => c02::configs_c03(tier),
         "C04" => c04::configs(tier),
         "C06" => c06::configs(tier),
         "C07" => c07::configs(tier),
